@@ -224,8 +224,8 @@ class Abs:
             return recv if recv is not None and recv.parts else (args[0] if args else leaf())
         if name in SIGN_KEEP_REDUCE:
             return recv if recv is not None and d not in (f"torch.{name}",) else args[0]
-        if d == "state.batchreduce":
-            return args[0]     # assumption: batch reductions are sign preserving (shipped: sum/mean/amax)
+        if name == "batchreduce" and args:
+            return args[0]     # assumption: batch reductions are sign preserving (shipped: sum/mean/amax); which one is used is C08/C11's concern
         if d == "ein.einsum":
             ops = [a for a, n in zip(args, e.args) if not (isinstance(n, ast.Constant) and isinstance(n.value, str))]
             sg = "P"
